@@ -607,6 +607,24 @@ pub fn proto_one<C: Worlds>(data: &[u8]) {
             let _ = vk.verify(&msg, &sig);
             let _ = sig.serialize();
             let _ = vk.serialize();
+            // identifier derivation from arbitrary bytes and the list form of the VSS commitment decoder
+            let dl = c.below(40);
+            let d = c.bytes(dl);
+            let _ = Id::<C>::derive(&d);
+            let cnt = c.below(5);
+            let list: Vec<Vec<u8>> = (0..cnt)
+                .map(|_| {
+                    let l = [0usize, 1, el_len::<C>() - 1, el_len::<C>(), el_len::<C>(), el_len::<C>() + 1][c.below(6)];
+                    let mut b = c.bytes(l);
+                    if l == el_len::<C>() && c.below(2) == 0 {
+                        b = el_bytes::<C>(&gen_::<C>()).unwrap_or_default();
+                    }
+                    b
+                })
+                .collect();
+            if let Ok(v) = VerifiableSecretSharingCommitment::<C>::deserialize(list.clone()) {
+                oracle(v.serialize().ok() == Some(list), "VSS commitment list: accepted encodings do not re-encode to themselves");
+            }
         }
         _ => {
             let p = any_package::<C>(&mut c, w);
